@@ -78,7 +78,9 @@ func (c *UnsignedCounter) Add(delta uint64) {
 	}
 	for {
 		stripe := &c.stripes[t.idx&c.mask]
+		verifYield(61 + 100*int(t.idx&c.mask))
 		cnt := atomic.LoadUint64(&stripe.c)
+		verifYield(62)
 		if atomic.CompareAndSwapUint64(&stripe.c, cnt, cnt+delta) {
 			break
 		}
@@ -95,6 +97,7 @@ func (c *UnsignedCounter) Value() uint64 {
 	v := uint64(0)
 	for i := 0; i < len(c.stripes); i++ {
 		stripe := &c.stripes[i]
+		verifYield(63)
 		v += atomic.LoadUint64(&stripe.c)
 	}
 	return v
